@@ -52,9 +52,88 @@ def expect_call(ctx, rule: str, construct: str, m: core.Mod, expr: ast.expr | No
                f"{callee[0]}({p}=...) receives `{got}`; expected {' or '.join(accepted)}", m.loc(expr))
 
 
+def _create_tabulate(ctx, dm, create) -> bool | None:
+    """CREATE.tabulated: DateTime.create run by the checker's interpreter; the zone is a stub whose convert() records what it is given and
+    answers with a value that differs from it in every field, in the fold and in the tzinfo object.  Expected: with a zone, convert()
+    receives the naive wall time of the arguments with the fold given (default 1) and the raise_on_unknown_times flag (default False),
+    and the instance is built from all seven fields, the tzinfo and the fold of its answer; without a zone (tz=None) the instance is
+    built from the arguments, naive, with the fold given."""
+    import datetime as _dt
+    from ..rules import minieval
+    from ..rules.minieval import ClassStub, Stub
+    bad, n = [], 0
+    meths = dm.methods_mro("DateTime")
+    funcs = {st.name: st for st in dm.top() if isinstance(st, ast.FunctionDef)}
+    answer_tz = _dt.timezone(_dt.timedelta(hours=5, minutes=30), "ANSWER")
+    try:
+        for args in ((2021, 3, 28, 2, 30, 15, 123456), (2020, 2, 29), (1999, 12, 31, 23, 59, 59, 999999)):
+            for tzarg in ("Europe/Paris", None, "default"):
+                for fold in (None, 0, 1):
+                    for flag in (None, True):
+                        seen, built = [], []
+
+                        def convert(native, *a, **k):
+                            seen.append((native, a, k))
+                            return _dt.datetime(2001, 2, 3, 4, 5, 6, 7, tzinfo=answer_tz, fold=1 - native.fold)
+                        zone = Stub(_zone=True, convert=convert)
+                        asked = []
+                        cls = ClassStub(_new=lambda *a, **k: (built.append((a, k)), Stub(_built=True))[1], _isa=lambda v: False, _methods=lambda: meths)
+                        glob = {**minieval.module_consts(dm), "UTC": Stub(_utc=True), "datetime": Stub(datetime=_dt.datetime, timedelta=_dt.timedelta, date=_dt.date, tzinfo=_dt.tzinfo),
+                                "pendulum": Stub(_safe_timezone=lambda z, *a, **k: (asked.append(z), zone)[1]), "ValueError": ValueError}
+                        kw = {}
+                        if tzarg != "default":
+                            kw["tz"] = tzarg
+                        if fold is not None:
+                            kw["fold"] = fold
+                        if flag is not None:
+                            kw["raise_on_unknown_times"] = flag
+                        n += 1
+                        label = f"create({', '.join(map(str, args))}{''.join(f', {k}={v!r}' for k, v in kw.items())})"
+                        got = minieval.call(create, [cls, *args], kw, {**funcs, "$globals": glob})
+                        if not getattr(got, "_built", False) or len(built) != 1:
+                            raise core.Unsupported(f"{label} does not return one cls(...) call")
+                        names = ["year", "month", "day", "hour", "minute", "second", "microsecond", "tzinfo"]
+                        f = dict(zip(names, built[0][0]))
+                        f.update(built[0][1])
+                        f = {k: f.get(k, 0 if k not in ("tzinfo",) else None) for k in names + ["fold"]}
+                        full = tuple(args) + (0,) * (7 - len(args))
+                        want_fold = 1 if fold is None else fold
+                        if tzarg is None:
+                            want = dict(zip(names, full + (None,)), fold=want_fold)
+                            if seen or asked:
+                                bad.append(f"{label}: a zone is consulted although tz=None")
+                        else:
+                            want = dict(zip(names, (2001, 2, 3, 4, 5, 6, 7, answer_tz)), fold=1 - want_fold)
+                            if len(seen) != 1:
+                                bad.append(f"{label}: convert() is called {len(seen)} times")
+                                continue
+                            nat, a_, k_ = seen[0]
+                            fl = a_[0] if a_ else k_.get("raise_on_unknown_times", False)
+                            if not (isinstance(nat, _dt.datetime) and nat.tzinfo is None and (nat.year, nat.month, nat.day, nat.hour, nat.minute, nat.second, nat.microsecond) == full):
+                                bad.append(f"{label}: convert() receives {nat!r}; must be the naive wall time of the arguments")
+                            elif nat.fold != want_fold:
+                                bad.append(f"{label}: convert() receives fold={nat.fold} (the fold asked for is {want_fold})")
+                            elif bool(fl) != bool(flag):
+                                bad.append(f"{label}: convert() receives raise_on_unknown_times={fl!r}")
+                            elif len(asked) != 1 or (tzarg == "default" and not getattr(asked[0], "_utc", False)) or (tzarg != "default" and asked[0] != tzarg):
+                                bad.append(f"{label}: the zone is resolved from {asked!r}")
+                        if f != want:
+                            diff = {k: f[k] for k in f if f[k] != want[k]}
+                            bad.append(f"{label}: the instance is built with {diff} (expected { {k: want[k] for k in diff} })")
+    except (core.Unsupported, KeyError, TypeError, AttributeError, ValueError, IndexError, RecursionError, minieval.Raised) as e:
+        ctx.unverified("CREATE.tabulated", "DateTime.create", f"outside the checker's interpreter: {type(e).__name__}: {str(e)[:160]}", dm.loc(create))
+        return None
+    ctx.ob("CREATE.tabulated", "DateTime.create", not bad, f"{n} calls: " + (f"wrong: {bad[:3]}" if bad else
+           "the naive wall time, the fold and the flag go to the zone's convert(); the instance takes every field, the tzinfo and the fold of its answer"), dm.loc(create))
+    if not bad:
+        ctx.established(("FUNNEL.create", "RECON"), "DateTime.create", "CREATE.tabulated")
+    return not bad
+
+
 def _funnel(ctx) -> None:
     im, dm, tzm = pmod("__init__"), pmod("datetime"), pmod("tz.timezone")
     create = dm.func("DateTime.create")
+    _create_tabulate(ctx, dm, create)
     cp = core.params(create)
     ctx.ob("FUNNEL.signature", "DateTime.create", cp[:9] == F7 + ["tz", "fold"] and "raise_on_unknown_times" in cp,
            f"create parameters are {cp}", dm.loc(create))
@@ -217,9 +296,17 @@ def _defaults(ctx) -> None:
     em = pmod("tz.exceptions")
     for c in ("NonExistingTime", "AmbiguousTime"):
         node = em.cls(c)
-        chain = [un(b) for b in node.bases]
-        ok = chain == ["TimezoneError"] and [un(b) for b in em.cls("TimezoneError").bases] == ["ValueError"]
-        ctx.ob("EXC.hierarchy", c, ok, f"{c} bases {chain}; must derive from ValueError via TimezoneError", em.loc(node))
+        chain, todo = [], [c]
+        while todo:         # every ancestor defined in the module (a shared private base class is a spelling of the same hierarchy)
+            k = todo.pop(0)
+            for b in (un(b) for b in em.cls(k).bases):
+                if b not in chain:
+                    chain.append(b)
+                    if em.has_cls(b):
+                        todo.append(b)
+        other = "AmbiguousTime" if c == "NonExistingTime" else "NonExistingTime"
+        ok = "TimezoneError" in chain and "ValueError" in chain and other not in chain
+        ctx.ob("EXC.hierarchy", c, ok, f"{c} ancestors {chain}; must derive from ValueError via TimezoneError (and not from {other})", em.loc(node))
 
 
 # ---------------------------------------------------------------------------
